@@ -1,4 +1,4 @@
-// C13 for PNG: GIL-written seeds of every supported pixel type, Adam7-interlaced seeds written with libpng directly
+// C13 for PNG (shared by c13_png_a.cpp / c13_png_b.cpp, which split the pixel types to bound compile time): GIL-written seeds of every supported pixel type, Adam7-interlaced seeds written with libpng directly
 // (GIL's writer cannot produce them), and the repo's sample PNGs.
 #include "c13_lib.hpp"
 #include <boost/gil/extension/io/png.hpp>
@@ -28,7 +28,9 @@ struct PngFmt : c13::LibFmtBase<gil::png_tag>
     { c13::view_exact_any<PngFmt, Img>(e, src, d, full, typename gil::is_bit_aligned<typename Img::value_type>::type()); }
 };
 
-using Types = mp::mp_remove<c12::Supported<gil::png_tag>, gil::bgr8_image_t>;   // bgr8 has the same file layout as rgb8
+using AllTypes = mp::mp_remove<c12::Supported<gil::png_tag>, gil::bgr8_image_t>;   // bgr8 has the same file layout as rgb8
+using Types = PNG_PART_TYPES;
+static_assert(mp::mp_all_of_q<Types, c12::IsRW<gil::png_tag>>::value, "part types must be supported");
 
 template <class Img> static int chan_bits()
 {
@@ -82,7 +84,7 @@ VH_GROUP(seeds)
             ioc::ScratchFile file("c13-" + nm, "png", bytes);
             SeedView sv; sv.name = nm; sv.bytes = &bytes; sv.path = file.path;
             sv.file_bpp = chan_bits<Img>(); sv.aux1 = int(gil::num_channels<typename Img::view_t>::value);
-            sv.subrects = allrect || (sz[0] <= 5 && sz[1] <= 4);
+            sv.subrects = (allrect && sz[0] * sz[1] <= 20) || (sz[0] <= 5 && sz[1] <= 4);
             ++ctx.witness["png_gil_written_seeds"];
             run_typed<Img>(ctx, sv, o);
             if (ctx.timed_out()) return;
@@ -94,6 +96,7 @@ VH_GROUP(seeds)
                             {"png_adam7_rgba8_4x3", 4, 3, PNG_COLOR_TYPE_RGB_ALPHA, 4}, {"png_adam7_rgb8_9x2", 9, 2, PNG_COLOR_TYPE_RGB, 3}};
     for (auto const& a : a7)
     {
+        if ((a.ch == 1) != (PNG_PART_GRAY != 0)) continue;      // gray seeds belong to the gray part
         if (!ctx.take()) continue;
         ctx.cur = a.n;
         std::vector<int> expected;
@@ -103,16 +106,19 @@ VH_GROUP(seeds)
         SeedView sv; sv.name = a.n; sv.bytes = &bytes; sv.path = file.path;
         sv.expected = &expected; sv.exp_channels = a.ch; sv.exp_w = a.w; sv.exp_h = a.h;
         sv.file_bpp = 8; sv.aux1 = a.ch;
-        sv.subrects = allrect || (a.w <= 5 && a.h <= 4);
+        sv.subrects = (allrect && a.w * a.h <= 20) || (a.w <= 5 && a.h <= 4);
         sv.scan_expected = false;      // documented: scanline_read_iterator cannot read interlaced png images
         ++ctx.witness["png_interlaced_seeds"];
-        if (a.ch == 1) run_typed<gil::gray8_image_t>(ctx, sv, o);
-        else if (a.ch == 3) run_typed<gil::rgb8_image_t>(ctx, sv, o);
+#if PNG_PART_GRAY
+        run_typed<gil::gray8_image_t>(ctx, sv, o);
+#else
+        if (a.ch == 3) run_typed<gil::rgb8_image_t>(ctx, sv, o);
         else run_typed<gil::rgba8_image_t>(ctx, sv, o);
+#endif
     }
 }
 
-// repo samples: the native type is the first candidate read_image accepts for the file
+// repo samples: the native type is the candidate read_image accepts for the file (each part tries its own types)
 VH_GROUP(samples)
 {
     vh::ubsan_counts() = false;
@@ -130,8 +136,7 @@ VH_GROUP(samples)
         SeedView sv; sv.name = "sample:" + path.substr(path.rfind('/') + 1); sv.bytes = &bytes; sv.path = path;
         sv.subrects = false; sv.big = true;
         bool done = false;
-        using Try = mp::mp_list<gil::rgba8_image_t, gil::rgb8_image_t, gil::gray8_image_t, gil::gray16_image_t, gil::rgb16_image_t,
-                                gil::rgba16_image_t, gil::gray4_image_t, gil::gray2_image_t, gil::gray1_image_t>;
+        using Try = Types;       // PNG reads are type-exact: at most one type of one part accepts a file
         mp::mp_for_each<mp::mp_transform<mp::mp_identity, Try>>([&](auto Id) {
             using Img = typename decltype(Id)::type;
             if (done) return;
@@ -147,7 +152,7 @@ VH_GROUP(samples)
             ++ctx.witness["sample_files"];
             run_typed<Img>(ctx, sv, o);
         });
-        if (!done) ++ctx.counters["sample_without_native_type_among_candidates"];
+        if (!done) ++ctx.counters["sample_not_native_to_this_part"];
         if (ctx.timed_out()) return;
     }
 }
